@@ -105,6 +105,10 @@ func (o *Obligation) solve(dir string, timeoutS int, thorough bool) {
 	if o.Timeout > 0 && o.Timeout > timeoutS {
 		timeoutS = o.Timeout
 	}
+	if o.Expect == "sat" && timeoutS > 6 {
+		// vacuity covers: a short attempt is enough (undecided covers are reported, never an alarm)
+		timeoutS = 6
+	}
 	if o.goal == "true" && o.Expect == "unsat" {
 		o.Status, o.Solver = "proved", "trivial"
 		return
